@@ -17,18 +17,32 @@ def clsOf : Result → Nat → Option Cls
   | .table l, i => l[i]?
   | .raised c, _ => some c
 
-/-- A whole-message failure keeps every recipient's own class and never produces a success. -/
-theorem fail_keeps_own (own : List (Option Cls)) (e : Cls) (i : Nat) (c : Cls) (h : own[i]? = some (some c)) :
+/-- **A whole-message failure keeps every recipient's own class** whenever the failure's class is itself among the classes the
+    recipients end up with — i.e. somebody had no reply of his own (and gets the failure's), or the failure IS a recipient's reply
+    (every RCPT refused): these are all the failures of a transaction whose MAIL was accepted (`checkReplies_keeps_own` below).
+    (When MAIL itself is refused and the pipelined RCPTs are all answered with the other kind, `_fail` raises the MAIL failure for
+    everybody: `fail_sender_refused_example`.) -/
+theorem fail_keeps_own (own : List (Option Cls)) (e : Cls) (i : Nat) (c : Cls) (h : own[i]? = some (some c))
+    (hc : c ≠ .ok) (he : e ≠ .ok) (hmem : e ∈ own.map fun o => o.getD e) :
     clsOf (fail own e) i = some c := by
+  have hcm : c ∈ own.map fun o => o.getD e := by
+    have : (own.map fun o => o.getD e)[i]? = some c := by simp [List.getElem?_map, h]
+    exact List.mem_of_getElem? this
   simp only [fail]
   split
   · rename_i hall
-    simp only [clsOf]
-    have : (own.map fun o => o.getD e)[i]? = some c := by simp [List.getElem?_map, h]
-    have hm : c ∈ own.map fun o => o.getD e := List.mem_of_getElem? this
-    have := List.all_eq_true.mp hall c hm
-    simp at this; rw [this]
+    simp only [clsOf, Option.some.injEq]
+    simp only [Bool.or_eq_true, List.all_eq_true] at hall
+    rcases hall with hp | hn
+    · have h1 := hp c hcm; have h2 := hp e hmem
+      simp at h1 h2; rw [h1, h2]
+    · have h1 := hn c hcm; have h2 := hn e hmem
+      cases c <;> cases e <;> simp_all
   · simp [clsOf, List.getElem?_map, h]
+
+/-- what `_fail` does when the sender was refused and every pipelined RCPT got the other kind of reply -/
+theorem fail_sender_refused_example : fail [some .temp] .perm = .raised .perm ∧ fail [some .perm, some .perm] .temp = .raised .temp ∧
+    fail [some .temp, some .perm] .perm = .table [.temp, .perm] := by decide
 
 theorem fail_not_ok (own : List (Option Cls)) (e : Cls) (he : e ≠ .ok) (hown : ∀ o ∈ own, o ≠ some .ok) (i : Nat) :
     clsOf (fail own e) i ≠ some .ok := by
@@ -96,6 +110,42 @@ theorem checkReplies_inl_not_ok {mail data : Nat} {rcpts : List Nat} {r : Result
     · split at h
       · simp at h; subst h; exact fail_not_ok _ _ (factory_not_ok _) (ownClasses_not_ok _) i
       · simp at h
+
+/-- **An accepted sender: a refused recipient keeps the class of its own reply** through any failure of the transaction (every
+    recipient refused, DATA refused): 4xx stays "try again later", 5xx stays "failed for good". -/
+theorem checkReplies_keeps_own {mail data : Nat} {rcpts : List Nat} {r : Result} (hm : isError mail = false)
+    (h : checkReplies mail rcpts data = .inl r) (i : Nat) (c : Nat) (hc : rcpts[i]? = some c) (he : isError c = true) :
+    clsOf r i = some (factory c) := by
+  have hown : (ownClasses rcpts)[i]? = some (some (factory c)) := by simp [ownClasses, List.getElem?_map, hc, he]
+  simp only [checkReplies, hm, Bool.false_eq_true, if_false] at h
+  split at h
+  · rename_i hall
+    simp only [Sum.inl.injEq] at h; subst h
+    apply fail_keeps_own _ _ i _ hown (factory_not_ok _) (factory_not_ok _)
+    -- the failure is the first recipient's own reply
+    cases hr : rcpts with
+    | nil => simp [hr] at hc
+    | cons c0 rest =>
+      have h0 : isError c0 = true := by
+        have := List.all_eq_true.mp hall c0 (by simp [hr])
+        exact this
+      simp [ownClasses, h0]
+  · rename_i hnall
+    split at h
+    · simp only [Sum.inl.injEq] at h; subst h
+      apply fail_keeps_own _ _ i _ hown (factory_not_ok _) (factory_not_ok _)
+      -- somebody was accepted: he gets the failure's class
+      have : ∃ x ∈ rcpts, isError x = false := by
+        by_cases hx : ∃ x ∈ rcpts, isError x = false
+        · exact hx
+        · exfalso; apply hnall
+          simp only [not_exists, not_and, Bool.not_eq_false] at hx
+          exact List.all_eq_true.mpr hx
+      obtain ⟨x, hxm, hxe⟩ := this
+      exact List.mem_map.mpr ⟨none, by
+        simp only [ownClasses, List.mem_map]
+        exact ⟨x, hxm, by simp [hxe]⟩, rfl⟩
+    · simp at h
 
 /-- **SMTP: delivered only if accepted.** If recipient `i` is reported delivered, the script gave
     a well-formed, non-error reply to its RCPT, to MAIL, to DATA and to the message data. -/
